@@ -35,22 +35,35 @@
 (* reference runs ~state (possibly a listener thread, at the end of its    *)
 (* await_suspend).  The reference count itself (std::shared_ptr control    *)
 (* block) is not a scheduling point: trusted.                              *)
+(*                                                                         *)
+(* HookL = {h}: there is no signal at the start; h's thread runs a         *)
+(* coroutine whose first co_await is on signal::hook_up(fn)                *)
+(* (hook_up_emitter::await_suspend, signal.h:331-339): it creates the      *)
+(* signal, SUBSCRIBES the coroutine (CAS on the new chain) and only then   *)
+(* calls fn with the collector; fn hands the collector to the collector    *)
+(* thread (and prepares the emitters / signal objects of the other         *)
+(* arriving threads), which may emit from that moment on -- while h's      *)
+(* thread is still inside fn / await_suspend (harness mark "handed").      *)
+(* Because the subscription precedes the hand-over, h receives every value *)
+(* (RaceGuarantee with sub[h] = 0).                                        *)
 (***************************************************************************)
 EXTENDS Integers, Sequences, FiniteSets, TLC
 
-CONSTANTS PreL, ThrL,                      \* coroutine listeners (re-await in a loop until cancelled)
+CONSTANTS PreL, ThrL, HookL,               \* coroutine listeners (re-await in a loop until cancelled)
           PreCbT, PreCbF, ThrCbT, ThrCbF,  \* connected callbacks answering true (always) / false
           NEmit,
           Form                             \* "rvalue" | "lvalue": where the value lives during a call
 
-CoroL == PreL \cup ThrL
+CoroL == PreL \cup ThrL \cup HookL
 CbTrue == PreCbT \cup ThrCbT
 CbFalse == PreCbF \cup ThrCbF
 Cbs == CbTrue \cup CbFalse
 ThrCb == ThrCbT \cup ThrCbF
-Thr == ThrL \cup ThrCb                     \* listener threads, named after their listener
+Thr == ThrL \cup ThrCb \cup HookL          \* listener threads, named after their listener
 Pre == PreL \cup PreCbT \cup PreCbF
 Listeners == CoroL \cup Cbs
+
+ASSUME Cardinality(HookL) <= 1 /\ (HookL # {} => Pre = {})
 
 CANCEL == -1
 POISON == -9
@@ -71,7 +84,7 @@ VARIABLES
     csp,       \* C: coroutine handles collected in the suspend point under construction
     run,       \* C: handles of the discarded suspend point still to be resumed
     casn,      \* C: the listener whose subscription CAS C is executing
-    tpc        \* listener threads: "start" | "cas" | "dxchg" | "done"
+    tpc        \* listener threads: "start" | "cas" | "handed" (HookL: inside fn, collector handed over) | "dxchg" | "done"
 
 vars == <<slot, nxt, refs, cur, stor, cvar, lst, received, sub, nx, cpc, k, walk, csp, run, casn, tpc>>
 
@@ -89,7 +102,7 @@ Init ==
           /\ nxt = [l \in Listeners |-> IF \E i \in 2..Cardinality(Pre) : order[i] = l
                                           THEN order[(CHOOSE i \in 2..Cardinality(Pre) : order[i] = l) - 1]
                                           ELSE "null"]
-    /\ refs = 1 + Cardinality(ThrCb)
+    /\ refs = IF HookL = {} THEN 1 + Cardinality(ThrCb) ELSE 0
     /\ cur = "null" /\ stor = 0 /\ cvar = 0
     /\ lst = [l \in Listeners |-> IF l \in Pre THEN "waiting" ELSE "new"]
     /\ received = [l \in Listeners |-> <<>>]
@@ -99,6 +112,10 @@ Init ==
     /\ k = 0
     /\ walk = <<>> /\ csp = <<>> /\ run = <<>> /\ casn = "null"
     /\ tpc = [t \in Thr |-> "start"]
+
+(* with hook_up() nobody but the hooked coroutine can act before its registration function has handed the
+   collector over *)
+Handed == \A h \in HookL : tpc[h] \in {"handed", "dxchg", "done"}
 
 (* emitter::await_resume, signal.h:204-217 *)
 ReadVal == IF refs = 0 \/ cur = "null" THEN CANCEL ELSE IF cur = "storage" THEN stor ELSE cvar
@@ -152,7 +169,7 @@ DtorAll ==
 
 (* mark "emit"; the value is written by plain stores before the exchange (signal.h:97-98,115-116,137) *)
 CEmit ==
-    /\ cpc = "emit"
+    /\ cpc = "emit" /\ Handed
     /\ k' = k + 1
     /\ IF Form = "lvalue"
          THEN cvar' = k + 1 /\ cur' = "caller" /\ UNCHANGED stor
@@ -182,7 +199,7 @@ CCas ==
 
 (* mark "drop": C destroys its collector; the last strong reference runs ~state up to its exchange *)
 CDrop ==
-    /\ cpc = "drop"
+    /\ cpc = "drop" /\ Handed
     /\ refs' = refs - 1
     /\ IF refs = 1
          THEN cur' = "null" /\ stor' = 0 /\ cpc' = "dxchg"
@@ -203,7 +220,14 @@ CDxchg ==
    object, so the state is alive) and reaches the CAS *)
 TStart(t) ==
     /\ tpc[t] = "start"
-    /\ IF t \in ThrL /\ refs = 0
+    /\ t \notin HookL => Handed
+    /\ IF t \in HookL
+         THEN (* `signal s;` (one reference) and the lock of emitter::await_suspend (a second one) *)
+              /\ refs' = 2
+              /\ lst' = [lst EXCEPT ![t] = "casing"]
+              /\ tpc' = [tpc EXCEPT ![t] = "cas"]
+              /\ UNCHANGED received
+       ELSE IF t \in ThrL /\ refs = 0
          THEN /\ received' = [received EXCEPT ![t] = Append(@, CANCEL)]
               /\ lst' = [lst EXCEPT ![t] = "done"]
               /\ tpc' = [tpc EXCEPT ![t] = "done"]
@@ -217,17 +241,30 @@ TStart(t) ==
 TCas(t) ==
     /\ tpc[t] = "cas"
     /\ IF slot = nxt[t]
-         THEN LET r == refs - (IF t \in ThrCb THEN 2 ELSE 1)   \* temporary reference; + the thread's own signal object
+         THEN LET r == IF t \in HookL
+                         (* the temporary reference goes, the collector made for fn stays (moved to the collector
+                            thread) and fn makes a signal object for every connecting thread; `s` is still alive *)
+                         THEN refs + Cardinality(ThrCb)
+                         ELSE refs - (IF t \in ThrCb THEN 2 ELSE 1)   \* temporary reference; + the thread's own signal object
               IN  /\ slot' = t
                   /\ lst' = [lst EXCEPT ![t] = "waiting"]
                   /\ sub' = [sub EXCEPT ![t] = nx]
                   /\ refs' = r
-                  /\ IF r = 0 THEN cur' = "null" /\ stor' = 0 /\ tpc' = [tpc EXCEPT ![t] = "dxchg"]
+                  /\ IF t \in HookL THEN UNCHANGED <<cur, stor>> /\ tpc' = [tpc EXCEPT ![t] = "handed"]
+                     ELSE IF r = 0 THEN cur' = "null" /\ stor' = 0 /\ tpc' = [tpc EXCEPT ![t] = "dxchg"]
                               ELSE UNCHANGED <<cur, stor>> /\ tpc' = [tpc EXCEPT ![t] = "done"]
                   /\ UNCHANGED nxt
          ELSE /\ nxt' = [nxt EXCEPT ![t] = slot]
               /\ UNCHANGED <<slot, lst, sub, refs, cur, stor, tpc>>
     /\ UNCHANGED <<cvar, received, nx, cpc, k, walk, csp, run, casn>>
+
+(* mark "handed": fn returns, await_suspend returns true, its local signal object `s` is destroyed *)
+THanded(t) ==
+    /\ tpc[t] = "handed"
+    /\ refs' = refs - 1
+    /\ IF refs = 1 THEN cur' = "null" /\ stor' = 0 /\ tpc' = [tpc EXCEPT ![t] = "dxchg"]
+                   ELSE UNCHANGED <<cur, stor>> /\ tpc' = [tpc EXCEPT ![t] = "done"]
+    /\ UNCHANGED <<slot, nxt, cvar, lst, received, sub, nx, cpc, k, walk, csp, run, casn>>
 
 TDxchg(t) ==
     /\ tpc[t] = "dxchg"
@@ -236,10 +273,10 @@ TDxchg(t) ==
     /\ UNCHANGED <<refs, cur, stor, cvar, sub, nx, cpc, k, walk, csp, run, casn>>
 
 Next == \/ CEmit \/ CXchg \/ CCas \/ CDrop \/ CDxchg
-        \/ \E t \in Thr : TStart(t) \/ TCas(t) \/ TDxchg(t)
+        \/ \E t \in Thr : TStart(t) \/ TCas(t) \/ THanded(t) \/ TDxchg(t)
 
 Fair == /\ WF_vars(CEmit \/ CXchg \/ CCas \/ CDrop \/ CDxchg)
-        /\ \A t \in Thr : WF_vars(TStart(t) \/ TCas(t) \/ TDxchg(t))
+        /\ \A t \in Thr : WF_vars(TStart(t) \/ TCas(t) \/ THanded(t) \/ TDxchg(t))
 
 Spec == Init /\ [][Next]_vars /\ Fair
 
@@ -255,7 +292,7 @@ TypeOK ==
     /\ \A l \in Listeners : lst[l] \in {"new", "casing", "waiting", "out", "done", "freed"}
     /\ refs >= 0
     /\ cpc \in {"emit", "xchg", "cas", "drop", "dxchg", "done"}
-    /\ \A t \in Thr : tpc[t] \in {"start", "cas", "dxchg", "done"}
+    /\ \A t \in Thr : tpc[t] \in {"start", "cas", "handed", "dxchg", "done"}
 
 (* never lost: a listener whose subscription took effect is in the chain, or in the hands of the
    collector thread (detached, to be resumed), or finished; the chain is an acyclic list of distinct
@@ -270,8 +307,8 @@ ChainWellFormed ==
 
 (* the state stays alive while somebody is inside a collector call or a subscription *)
 RefsSound ==
-    /\ (cpc \in {"emit", "xchg", "cas", "drop"}) => refs > 0
-    /\ \A t \in Thr : tpc[t] = "cas" => refs > 0
+    /\ (Handed /\ cpc \in {"emit", "xchg", "cas", "drop"}) => refs > 0
+    /\ \A t \in Thr : tpc[t] \in {"cas", "handed"} => refs > 0
     /\ refs = 0 => cur = "null"
 
 (* What is guaranteed when a subscription races with a collector call: the listener whose CAS took
